@@ -40,6 +40,12 @@ func applyConfig(e *twig.Engine, c string) {
 	case "s:":
 		// strict variables (the option exists; what it does to undefined variables is the engine's)
 		e.SetStrictVars(true)
+	case "p:":
+		// the engine gets a default policy of its own, relaxed in place for one name
+		pol := twig.NewDefaultSecurityPolicy()
+		pol.AllowedFilters[name] = true
+		pol.AllowedFunctions[name] = true
+		e.EnableSandbox(pol)
 	case "g:":
 		e.AddGlobal(name, "G"+name)
 	case "f:":
